@@ -476,3 +476,10 @@ func TrySend[T any](ch chan<- T, v T) (ok bool) {
 	ch <- v
 	return true
 }
+
+// OffsetOf is the byte offset of *field inside *base (two pointers into the
+// same object), e.g. OffsetOf(&x, &x.In.B). Under the symbolic executor's
+// layout-symbolic mode it is the term the Go layout rule yields.
+func OffsetOf(base, field any) int {
+	return int(reflect.ValueOf(field).Pointer() - reflect.ValueOf(base).Pointer())
+}
